@@ -16,6 +16,14 @@ type Locker = rsync.Locker
 
 // Mutex ------------------------------------------------------------------------
 
+// PostAcquirePoints adds a scheduling point right AFTER every lock acquisition. With
+// blocking locks only, points before the acquisitions are enough (a thread that wants a
+// held lock simply waits); TryLock / TryRLock make the state of a lock observable without
+// waiting, so another thread must be able to run while the lock is held. The instrumenter
+// sets it (in an init of the generated file) iff the code under test calls TryLock or
+// TryRLock anywhere, so that builds without them keep the smaller schedule space.
+var PostAcquirePoints bool
+
 type Mutex struct {
 	real rsync.Mutex
 	held bool
@@ -25,6 +33,9 @@ func (m *Mutex) Lock() {
 	if vrt.Active() {
 		vrt.Yield("mutex.lock", func() bool { return !m.held })
 		m.held = true
+		if PostAcquirePoints {
+			vrt.Step("mutex.acquired")
+		}
 	}
 	m.real.Lock()
 }
@@ -67,6 +78,9 @@ func (m *RWMutex) Lock() {
 		vrt.Yield("rw.lock", func() bool { return !m.writer && m.readers == 0 })
 		m.waiting--
 		m.writer = true
+		if PostAcquirePoints {
+			vrt.Step("rw.acquired")
+		}
 	}
 	m.real.Lock()
 }
@@ -82,6 +96,9 @@ func (m *RWMutex) RLock() {
 	if vrt.Active() {
 		vrt.Yield("rw.rlock", func() bool { return !m.writer && m.waiting == 0 })
 		m.readers++
+		if PostAcquirePoints {
+			vrt.Step("rw.racquired")
+		}
 	}
 	m.real.RLock()
 }
@@ -91,6 +108,35 @@ func (m *RWMutex) RUnlock() {
 		m.readers--
 	}
 	m.real.RUnlock()
+}
+
+// TryLock / TryRLock: a scheduling point, then the answer the model state gives (Go's
+// TryLock fails while readers or a writer hold the lock; TryRLock fails while a writer
+// holds it or is waiting).
+func (m *RWMutex) TryLock() bool {
+	if vrt.Active() {
+		vrt.Step("rw.trylock")
+		if m.writer || m.readers > 0 {
+			return false
+		}
+		m.writer = true
+		m.real.Lock()
+		return true
+	}
+	return m.real.TryLock()
+}
+
+func (m *RWMutex) TryRLock() bool {
+	if vrt.Active() {
+		vrt.Step("rw.tryrlock")
+		if m.writer || m.waiting > 0 {
+			return false
+		}
+		m.readers++
+		m.real.RLock()
+		return true
+	}
+	return m.real.TryRLock()
 }
 
 func (m *RWMutex) RLocker() Locker { return (*rlocker)(m) }
